@@ -559,6 +559,60 @@ fn sweep_ring<F: RefEuclid>(run: &Run, name: &'static str, al: &[F], maxdim: usi
     RingStats { name, kept: kept.into_inner(), nontrivial: nontrivial.into_inner(), with_torsion: with_torsion.into_inner(), candidates, alphabet: show_vec(al) }
 }
 
+/// Planted torsion: d_in = U * diag(d1,d2,d3) * V (optionally with an extra zero row / column, so
+/// that a free part and a zero pivot occur), d_out = 0 or the row that kills the image, for every
+/// triple over `dal` and a few unimodular U, V over {0, 1, -1}.  The alphabet sweep above cannot
+/// produce three non-trivial, mutually non-dividing invariant factors in one degree; this family
+/// does (seed `C07-snf-gcd-step-no-restart`).
+fn planted_family<F: RefEuclid>(run: &Run, name: &'static str, dal: &[F], f: impl Fn(&Case<F>) + Sync) -> RingStats {
+    let one = F::one();
+    let e = |i: usize, j: usize, v: i64| -> RMat<F> {
+        RMat::from_fn(3, 3, |r, c| if r == c { one.clone() } else if (r, c) == (i, j) { F::from_i64(v) } else { F::zero() })
+    };
+    let id = RMat::from_fn(3, 3, |r, c| if r == c { one.clone() } else { F::zero() });
+    let us: Vec<RMat<F>> = vec![id.clone(), e(0, 1, 1), e(1, 0, 1).mul(&e(2, 1, -1)), e(0, 2, -1).mul(&e(1, 2, 1)).mul(&e(2, 0, 1))];
+    let triples = tuples(dal, 3);
+    let kept = AtomicU64::new(0);
+    let with_torsion = AtomicU64::new(0);
+    let stopped = std::sync::atomic::AtomicBool::new(false);
+    run.par_for(triples.len(), |ti| {
+        if stopped.load(Ordering::Relaxed) || run.over_budget() {
+            stopped.store(true, Ordering::Relaxed);
+            return;
+        }
+        let t = &triples[ti];
+        let d = RMat::from_fn(3, 3, |r, c| if r == c { t[r].clone() } else { F::zero() });
+        for (ui, u) in us.iter().enumerate() {
+            for (vi, v) in us.iter().enumerate() {
+                if (ui + vi) % 2 == 1 && ui != 0 && vi != 0 {
+                    continue;
+                }
+                let core = u.mul(&d).mul(v);
+                // shapes: 3x3, 4x3 (extra zero row: one more free generator), 3x4 (extra zero column)
+                for shape in 0..3 {
+                    let din = match shape {
+                        0 => core.clone(),
+                        1 => RMat::from_fn(4, 3, |r, c| if r < 3 { core.at(r, c).clone() } else { F::zero() }),
+                        _ => RMat::from_fn(3, 4, |r, c| if c < 3 { core.at(r, c).clone() } else { F::zero() }),
+                    };
+                    let dout = RMat::zero(if shape == 1 { 1 } else { 0 }, din.m);
+                    let cs = Case::new(din, dout);
+                    kept.fetch_add(1, Ordering::Relaxed);
+                    if cs.exp.iter().any(|e| !e.tors.is_empty()) {
+                        with_torsion.fetch_add(1, Ordering::Relaxed);
+                    }
+                    f(&cs);
+                }
+            }
+        }
+    });
+    if stopped.load(Ordering::Relaxed) {
+        run.cap(&format!("wall budget reached inside the planted-torsion family of {name}"));
+    }
+    let k = kept.into_inner();
+    RingStats { name, kept: k, nontrivial: k, with_torsion: with_torsion.into_inner(), candidates: k as f64, alphabet: format!("planted diag over {}", show_vec(dal)) }
+}
+
 fn qq(n: i64, d: i64) -> Q {
     Q::new(z(n), z(d))
 }
@@ -632,9 +686,33 @@ fn main() {
         ring!("F3[x]", p3al, [Poly<'x', FF<3>>]);
     };
     sweep_all(2, false);
+    // planted torsion (three invariant factors in one degree), see `planted_family`
+    let mut stats2: Vec<(RingStats, usize, usize)> = vec![];
+    {
+        macro_rules! planted {
+            ($name:expr, $al:expr, [$($t:ty),+]) => {{
+                let al = $al;
+                let ntypes = [$(<$t as Bridge>::NAME),+].len();
+                let st = planted_family(&run, $name, &al, |cs| { $( check_type::<$t>(&run, cs, true); )+ });
+                eprintln!("[c07] planted {:<8} diag alphabet {:>2}: cases {:>8} with torsion {:>8}  t={:.1}s", $name, al.len(), st.kept, st.with_torsion, run.elapsed());
+                stats2.push((st, 4, ntypes));
+            }};
+        }
+        let zd: Vec<Z> = if th { vec![0, 1, 2, 3, 4, 6, 9, 12, 18, -2, 5, 10] } else { vec![0, 1, 2, 3, 4, 6, 12, 18] }.into_iter().map(z).collect();
+        planted!("Z", zd, [i64, BigInt]);
+        let gd: Vec<Quad<-1>> = vec![Quad::of(0, 0), Quad::of(1, 0), Quad::of(1, 1), Quad::of(2, 0), Quad::of(1, 2), Quad::of(2, 1), Quad::of(3, 0), Quad::of(3, 1)];
+        planted!("Z[i]", if th { gd.clone() } else { gd[..6].to_vec() }, [GaussInt<i64>]);
+        let pq = |c: &[i64]| UPoly::<Q>::new(c.iter().map(|&i| Q::int(i)).collect());
+        let pd: Vec<UPoly<Q>> = vec![pq(&[]), pq(&[1]), pq(&[0, 1]), pq(&[1, 1]), pq(&[0, 0, 1]), pq(&[0, 1, 1]), pq(&[-1, 0, 1]), pq(&[2])];
+        planted!("Q[x]", if th { pd.clone() } else { pd[..6].to_vec() }, [Poly<'x', Ratio<i64>>]);
+        let p3 = |c: &[i64]| UPoly::<Fp<3>>::new(c.iter().map(|&i| Fp::<3>::new(i)).collect());
+        let p3d: Vec<UPoly<Fp<3>>> = vec![p3(&[]), p3(&[1]), p3(&[0, 1]), p3(&[1, 1]), p3(&[0, 0, 1]), p3(&[0, 1, 1]), p3(&[2, 1])];
+        planted!("F3[x]", if th { p3d.clone() } else { p3d[..6].to_vec() }, [Poly<'x', FF<3>>]);
+    }
     if th {
         sweep_all(3, true);
     }
+    stats.extend(stats2);
 
     // written-out samples (planted torsion; rectangular; polynomial ring)
     sample_for::<i64>(&run, RMat::from_rows(2, 2, vec![vec![z(2), z(4)], vec![z(6), z(0)]]), RMat::zero(1, 2));
